@@ -141,7 +141,7 @@ def header_words(line):
 class PTable:
     def __init__(self, nkeys, cols, lineno):
         self.nkeys, self.cols, self.lineno = nkeys, cols, lineno
-        self.rows = []          # (lineno, names, index text, [values text])
+        self.rows = []          # (lineno, names, index text, [leading integers], [(start, end, token text)], line text)
         self.fresh = True       # no row since the last header line
         self.keypos = None; self.varying = 0
         self.odd = []           # lines inside the table that are neither rows nor recognised decoration
@@ -184,6 +184,6 @@ def scan_listing(lines):
         names, idx, ints, toks, kp = r
         if tab.keypos is None: tab.keypos = kp
         elif kp != tab.keypos: tab.varying += 1
-        tab.rows.append((i, names, idx, ints, toks))
+        tab.rows.append((i, names, idx, ints, toks, line.rstrip('\r\n')))
         tab.fresh = False
     return times
